@@ -16,7 +16,9 @@ RULE = ("runs = (small tree: chain+wide directory / single directory / random tr
         "duplicates, nothing outside the tree; termination within 200*(entries+workers)+10000 hook steps; a state "
         "where every live worker has gone through the idle loop 4 times with no push/pop/counter/flag event in "
         "between is a definite livelock. Plus unserialised real-thread stress runs with yields and microsecond "
-        "sleeps injected at the hooks (2-16 workers). evaluations = walks; non-trivial/distinct = distinct "
+        "sleeps injected at the hooks (2-16 workers). Plus the systematic sweep: on 3 (thorough 5) tiny trees, 2-3 "
+        "(thorough 4) workers, every priority order, Quit at none / every visit index: the base schedule and a "
+        "preemption at every hook step (thorough: also every pair of steps), counters sweep_*. evaluations = walks; non-trivial/distinct = distinct "
         "schedules (hash of the scheduler's decision sequence).")
 
 ASSUME = [
